@@ -58,131 +58,136 @@ def arms_by_variant(match):
     return out
 
 
+def _spec_match(rng, c):
+    """documented semantics of a range on a count"""
+    from rules.absint import fields_of
+    if rng[1] == "Exact":
+        return c == rng[2][0][1]
+    if rng[1] == "Fallback":
+        return True
+    if rng[1] == "Multiple":
+        return any(_spec_match(x, c) for x in rng[2][0][1])
+    f = fields_of(rng)
+    st, en = f["start"], f["end"]
+    if st[1] == "Some" and c < st[2][0][1]:
+        return False
+    if en[1] == "Included":
+        return c <= en[2][0][1]
+    if en[1] == "Excluded":
+        return c < en[2][0][1]
+    return True
+
+
+def _pattern_accepts(text, c):
+    """does the Rust pattern / range expression `text` (as generated) accept the integer c? None if not understood"""
+    text = text.strip()
+    alts = [a.strip() for a in text.split("|") if a.strip() != ""] if "|" in text and "||" not in text else [text]
+    if len(alts) > 1:
+        rs = [_pattern_accepts(a, c) for a in alts]
+        return None if None in rs else any(rs)
+    t = text.replace(" ", "")
+    if t in ("_", ".."):
+        return True
+    m = re.match(r"^(-?\d+)?(\.\.=?)?(-?\d+)?$", t)
+    if not m or (m.group(2) is None and m.group(3) is not None):
+        return None
+    lo, op, hi = m.group(1), m.group(2), m.group(3)
+    if op is None:
+        return c == int(lo) if lo is not None else None
+    if lo is not None and c < int(lo):
+        return False
+    if hi is not None:
+        return c <= int(hi) if op == "..=" else c < int(hi)
+    return op == ".."
+
+
+def _condition_accepts(text, c):
+    """float branch condition as generated: `plural_count == v`, `RangeBounds::contains(&(range), &plural_count)`, joined by ||"""
+    parts = [x.strip() for x in text.split("||")]
+    res = []
+    for p in parts:
+        t = p.replace(" ", "")
+        m = re.match(r"^plural_count==(-?\d+)$", t)
+        if m:
+            res.append(c == int(m.group(1)))
+            continue
+        m = re.match(r"^core::ops::RangeBounds::contains\(&\((.*)\),&plural_count\)$", t)
+        if m:
+            a = _pattern_accepts(m.group(1), c)
+            if a is None:
+                return None
+            res.append(a)
+            continue
+        return None
+    return any(res)
+
+
 def r1_semantics(ctx):
     r = Rule("C04.R1", "bound semantics agree: do_match vs generated patterns vs float conditions",
-             "the three encodings decide which branch renders; if one treats an inclusive end as exclusive (or a fallback as "
-             "a condition) the run-time choice, the parse-time choice or the float choice differs from what the file says",
-             floor=17)
+             "`renders the first branch that contains the count`: `a..b` excludes b, `a..=b` includes it, an open side is unbounded; "
+             "the parse-time matcher (literal counts through foreign keys), the generated integer patterns and the generated float "
+             "conditions must all mean the same set of counts", floor=27)
+    from rules import absint
+    from rules.absint import AEval, C, CF, I, L
     ast = ctx.ast
-    fn = ast.fn(PR, "do_match")
-    if fn is None:
-        r.missing("Range::do_match")
-    else:
-        m = find_first(fn.body, "Match")
-        arms = arms_by_variant(m) if m else {}
-        def arm(prefix):
-            for k, a in arms.items():
-                if k.startswith(prefix):
-                    return a
-            return None
-        a = arm("Range::Exact")
-        got = cmp_canon(show(a["body"])) if a else None
-        if got != "count==B":
-            r.viol("R1:do_match#Exact", "Exact must compare with == (found %s)" % got, file=fn.file, line=fn.line)
+    pf = absint.file_funcs(ast, PR, "Range")
+    mf = absint.file_funcs(ast, MR)
+    dm = ast.fn(PR, "do_match", impl_self="Range")
+    ts = ast.fn(MR, "range_to_token_stream")
+    cd = ast.fn(MR, "range_to_condition")
+    for nm, f in (("Range::do_match", dm), ("range_to_token_stream", ts), ("range_to_condition", cd)):
+        if f is None:
+            r.missing(nm)
+    if dm is None or ts is None or cd is None:
+        return r
+
+    def Bounds(start, end):
+        return CF("Bounds", start=start, end=end)
+    # every shape of range, with bounds 5 and 7; counts on each side of each bound: all orderings a comparison can see
+    shapes = {
+        "Exact(5)": C("Exact", I(5)),
+        "5..": Bounds(C("Some", I(5)), C("Unbounded")),
+        "5..=7": Bounds(C("Some", I(5)), C("Included", I(7))),
+        "5..7": Bounds(C("Some", I(5)), C("Excluded", I(7))),
+        "..=7": Bounds(C("None"), C("Included", I(7))),
+        "..7": Bounds(C("None"), C("Excluded", I(7))),
+        "Fallback": C("Fallback"),
+        "5 | 7..": C("Multiple", L(C("Exact", I(5)), Bounds(C("Some", I(7)), C("Unbounded")))),
+        "..=5 | 7": C("Multiple", L(Bounds(C("None"), C("Included", I(5))), C("Exact", I(7)))),
+    }
+    counts = [4, 5, 6, 7, 8]
+    for label, rng in shapes.items():
+        want = [_spec_match(rng, c) for c in counts]
+        got = []
+        for c in counts:
+            v = AEval(funcs=pf).run_fn(dm, [rng, I(c)])
+            got.append(v[1] if not isinstance(v, str) and v[0] == "bool" else v)
+        if got == want:
+            r.inst("do_match " + label, "accepts %s of %s" % ([c for c, w in zip(counts, want) if w], counts))
         else:
-            r.inst("do_match#Exact", "v == count")
-        a = arm("Range::Bounds")
-        if a is None:
-            r.missing("do_match arm Bounds")
+            r.viol("R1:do_match#" + label, "parse-time matcher on `%s`: accepts %s of counts %s, the documented semantics accept %s" % (label, [c if g is True else g for c, g in zip(counts, got) if g is not False], counts, [c for c, w in zip(counts, want) if w]), file=dm.file, line=dm.line)
+        pv = AEval(funcs=mf).run_fn(ts, [rng])
+        ptxt = pv[1] if not isinstance(pv, str) and pv[0] == "tok" else None
+        acc = [_pattern_accepts(ptxt, c) if ptxt is not None else None for c in counts]
+        if ptxt is not None and acc == want:
+            r.inst("pattern for " + label, "`%s`" % ptxt)
         else:
-            body_txt = flat(show(a["body"]))
-            # start guard: reject when start > count
-            mm = re.search(r"ifmatches!\(start,Some\((\w+)\)if(.+?)\)\{returnfalse;?\}", body_txt)
-            sg = cmp_canon(mm.group(2)) if mm else None
-            if sg != "count<B":
-                r.viol("R1:do_match#start", "start bound must reject exactly when start > count (found %s)" % (sg or body_txt[:80]), file=fn.file, line=a["line"])
-            else:
-                r.inst("do_match#start", "Some(s) if s > count => no match (start is inclusive)")
-            em = [x for x in find_all(a["body"], "Match") if show(x["scrutinee"]) == "end"]
-            earms = arms_by_variant(em[0]) if em else {}
-            want = {"Bound::Included": "count<=B", "Bound::Excluded": "count<B", "Bound::Unbounded": "true"}
-            for pre, w in want.items():
-                g = None
-                for k, ea in earms.items():
-                    if k.startswith(pre):
-                        g = cmp_canon(show(ea["body"]))
-                if g != w:
-                    r.viol("R1:do_match#" + pre, "%s must evaluate `%s` (found %s)" % (pre, w, g), file=fn.file, line=a["line"])
-                else:
-                    r.inst("do_match#" + pre, w.replace("B", "end"))
-        a = arm("Range::Multiple")
-        t = flat(show(a["body"])) if a else ""
-        if not re.match(r"^ranges\.iter\(\)\.any\(\|(\w+)\|\1\.do_match\(count\)\)$", t):
-            r.viol("R1:do_match#Multiple", "Multiple must be `any` alternative matching (found %s)" % t[:80], file=fn.file, line=fn.line)
+            r.viol("R1:range_to_token_stream#" + label, "generated integer pattern for `%s` is `%s`: accepts %s of %s, must accept %s" % (label, ptxt if ptxt is not None else pv, [c for c, a in zip(counts, acc) if a], counts, [c for c, w in zip(counts, want) if w]), file=ts.file, line=ts.line)
+        cv = AEval(funcs=mf).run_fn(cd, [rng])
+        if not isinstance(cv, str) and cv[0] == "ctor" and cv[1] == "None":
+            ok = all(want)
+            ctxt = "(no condition: always)"
+            acc = [True] * len(counts)
+        elif not isinstance(cv, str) and cv[0] == "ctor" and cv[1] == "Some" and cv[2][0][0] == "tok":
+            ctxt = cv[2][0][1]
+            acc = [_condition_accepts(ctxt, c) for c in counts]
+            ok = acc == want
         else:
-            r.inst("do_match#Multiple", "ranges.iter().any(|r| r.do_match(count))")
-        a = arm("Range::Fallback")
-        if a is None or show(a["body"]) != "true":
-            r.viol("R1:do_match#Fallback", "Fallback must match everything", file=fn.file, line=fn.line)
+            ctxt, acc, ok = str(cv), [], False
+        if ok:
+            r.inst("float condition for " + label, "`%s`" % ctxt)
         else:
-            r.inst("do_match#Fallback", "true")
-    # generated patterns
-    fn = ast.fn(MR, "range_to_token_stream")
-    if fn is None:
-        r.missing("range_to_token_stream")
-    else:
-        m = find_first(fn.body, "Match")
-        want = {
-            "Range::Exact(": ["#num"],
-            "Range::Bounds { start: start, end: Bound::Included(end) }": ["#start ..= #end"],
-            "Range::Bounds { start: start, end: Bound::Unbounded }": ["#start .."],
-            "Range::Bounds { start: start, end: Bound::Excluded(end) }": ["#start .. #end"],
-            "Range::Fallback": ["_"],
-            "Range::Multiple(": ["#first #(| #matchs)*", ""],
-        }
-        seen = set()
-        for a in (m or {"arms": []})["arms"]:
-            p = show_pat(a["pat"])
-            for k, w in want.items():
-                if p.startswith(k):
-                    seen.add(k)
-                    qs = sorted(tok_text(q["tokens"]) for q in xquotes(a["body"]))
-                    # variable names of the interpolations are bound by the pattern: normalise
-                    binds = re.findall(r"\b(\w+)\b", p.split("(")[-1] if "(" in p and "{" not in p else "")
-                    if k == "Range::Exact(" and binds:
-                        qs = [q.replace("#" + binds[0], "#num") for q in qs]
-                    if sorted(w) != qs:
-                        r.viol("R1:range_to_token_stream#" + k, "pattern for %s is `%s`, expected `%s`" % (k, qs, w), file=fn.file, line=a["line"])
-                    else:
-                        r.inst("range_to_token_stream#" + k.strip("( "), " / ".join(q for q in qs if q) or "(empty)")
-                    if k == "Range::Multiple(":
-                        t = flat(show(a["body"]))
-                        if not has(t, "matchs.iter().map(range_to_token_stream)"):
-                            r.viol("R1:range_to_token_stream#Multiple-rec", "alternatives are not rendered by range_to_token_stream in order", file=fn.file, line=a["line"])
-        for k in want:
-            if k not in seen:
-                r.viol("R1:range_to_token_stream#missing" + k, "no arm for %s" % k, file=fn.file, line=fn.line)
-    fn = ast.fn(MR, "range_to_condition")
-    if fn is None:
-        r.missing("range_to_condition")
-    else:
-        m = find_first(fn.body, "Match")
-        arms = arms_by_variant(m) if m else {}
-        for k, a in arms.items():
-            body = flat(show(a["body"]))
-            qs = [tok_text(q["tokens"]) for q in xquotes(a["body"])]
-            if k.startswith("Range::Exact"):
-                v = re.findall(r"\((\w+)\)", k)
-                ok = qs == ["plural_count == #%s" % (v[0] if v else "exact")] and body.startswith("Some(")
-                what = "plural_count == #exact"
-            elif k.startswith("Range::Bounds"):
-                ok = qs == ["core :: ops :: RangeBounds :: contains (& (#ts) , & plural_count)"] and has(body, "letts=range_to_token_stream(range)") and has(body, "Some(")
-                what = "RangeBounds::contains(&(pattern), &plural_count) with the pattern of range_to_token_stream"
-            elif k.startswith("Range::Multiple"):
-                ok = qs == ["#first #(|| #conditions)*"] and has(body, "conditions.iter().filter_map(range_to_condition)")
-                what = "cond || cond ..."
-            elif k.startswith("Range::Fallback"):
-                ok = show(a["body"]) == "None"
-                what = "None (unconditional)"
-            else:
-                ok, what = False, "unknown arm"
-            if ok:
-                r.inst("range_to_condition#" + k.split("(")[0].split(" ")[0], what)
-            else:
-                r.viol("R1:range_to_condition#" + k.split("(")[0].split(" ")[0], "float condition for %s changed: %s / %s" % (k, qs, body[:100]), file=fn.file, line=a["line"])
-        for need in ("Range::Exact", "Range::Bounds", "Range::Multiple", "Range::Fallback"):
-            if not any(k.startswith(need) for k in arms):
-                r.viol("R1:range_to_condition#missing-" + need, "no arm for " + need, file=fn.file, line=fn.line)
+            r.viol("R1:range_to_condition#" + label, "generated float condition for `%s` is `%s`: accepts %s of %s, must accept %s" % (label, ctxt, [c for c, a in zip(counts, acc) if a], counts, [c for c, w in zip(counts, want) if w]), file=cd.file, line=cd.line)
     return r
 
 
@@ -198,33 +203,42 @@ def r2_first_match(ctx):
     if fn is None:
         r.missing("find_value")
     else:
-        loops = list(find_all(fn.body, "ForLoop"))
-        ok = False
-        if len(loops) == 1:
-            it = flat(show(loops[0]["iter"]))
-            body = flat(show(loops[0]["body"]))
-            pat = flat(show_pat(loops[0]["pat"]))
-            ok = it == "v" and pat == "(range,value)" and re.match(r"^\{ifrange\.do_match\(count\)\{returnvalue\.populate\(args,foreign_key,locale,key_path\);?\};?\}$", body) is not None
-        if ok:
-            r.inst("find_value", "for (range, value) in v { if range.do_match(count) { return value.populate(args, ..) } }")
+        # abstract evaluation (rules/absint.py): overlapping branches, every position of the first match
+        from rules import absint
+        from rules.absint import AEval, C, CF, I, L, A, T
+        pf = absint.file_funcs(ast, PR, "Range")
+        b57 = CF("Bounds", start=C("Some", I(5)), end=C("Included", I(7)))
+        branches = L(T(C("Exact", I(5)), A("v0")), T(b57, A("v1")), T(C("Exact", I(6)), A("v2")), T(C("Fallback"), A("v3")))
+        want = {5: "v0.populate", 6: "v1.populate", 7: "v1.populate", 9: "v3.populate"}
+        nargs = len(fn.node["sig"]["inputs"])
+        got = {}
+        for c in want:
+            v = AEval(funcs=pf).run_fn(fn, [branches, I(c)] + [A("arg%d" % k) for k in range(nargs - 2)])
+            got[c] = v[1] if not isinstance(v, str) and v[0] == "atom" else (absint.fmt(v) if not isinstance(v, str) else v)
+        nomatch = AEval(funcs=pf).run_fn(fn, [L(T(C("Exact", I(5)), A("v0"))), I(6)] + [A("arg%d" % k) for k in range(nargs - 2)])
+        nm_ok = not isinstance(nomatch, str) and nomatch[0] == "ctor" and nomatch[1] == "Err"
+        if got == want and nm_ok:
+            r.inst("find_value", "the first branch (in declaration order) whose range contains the count is populated; no match -> Err")
         else:
-            r.viol("R2:find_value", "parse-time selection is no longer a forward scan returning the first matching branch", file=fn.file, line=fn.line)
+            r.viol("R2:find_value", "parse-time selection over [5, 5..=7, 6, _] gives %s (expected %s); without a matching branch: %s" % (got, want, nomatch if isinstance(nomatch, str) else absint.fmt(nomatch)), file=fn.file, line=fn.line)
     for name in ("to_tokens_integers", "to_tokens_integers_string", "to_tokens_floats", "to_tokens_floats_string"):
         fn = ast.fn(MR, name)
         if fn is None:
             r.missing(name)
             continue
         chains = []
-        for l in find_all(fn.body, "Let"):
-            if "init" in l and show_pat(l["pat"]).split()[-1] in ("match_arms", "ifs"):
-                base, ch = method_chain(l["init"])
-                chains.append((show(base), [m for m, _, _ in ch]))
+        p0 = fn.params()[0] if fn.params() else "ranges"
+        for mc in find_all(fn.body, "MethodCall"):
+            base, ch = method_chain(mc)
+            ms = [m for m, _, _ in ch]
+            if show(base) == p0 and ms and ms[0] == "iter" and ("map" in ms or "enumerate" in ms) and (not chains or len(ms) > len(chains[0][1])):
+                chains = [(show(base), ms)]
         if len(chains) < 1:
-            r.viol("R2:%s#iter" % name, "cannot find the branch iteration (`match_arms` / `ifs`)", file=fn.file, line=fn.line)
+            r.viol("R2:%s#iter" % name, "cannot find the iteration that turns the branches into arms (`%s.iter()..map(..)`)" % p0, file=fn.file, line=fn.line)
             continue
         base, meths = chains[0]
         bad = [m for m in meths if m in BAD_ADAPTORS]
-        if base != "ranges" or meths[0] != "iter" or bad:
+        if base != p0 or meths[0] != "iter" or bad:
             r.viol("R2:%s#order" % name, "branches are generated from `%s.%s` (must be ranges.iter() with no reordering/filtering adaptor)" % (base, ".".join(meths)), file=fn.file, line=fn.line)
         else:
             r.inst(name, "ranges.%s -> arms in declaration order" % ".".join(meths))
@@ -241,7 +255,7 @@ def r2_first_match(ctx):
 def r3_ends(ctx):
     r = Rule("C04.R3", "exclusive/inclusive end handling in the parser",
              "`a..b` must exclude b and `a..=b` include it for every numeric type; an off-by-one here changes which counts a branch accepts",
-             floor=6)
+             floor=5)
     ast = ctx.ast
     # macro_rules tables impl_num / impl_floats
     txt = ctx.read(PR)
@@ -274,25 +288,40 @@ def r3_ends(ctx):
     if fn is None:
         r.missing("Range::new")
         return r
-    body = flatp(show(fn.body))
-    checks = {
-        "end-empty->Unbounded": "ifend.is_empty(){Bound::Unbounded}",
-        "=end->Included": "elseifletSome(end)=end.strip_prefix('=').map(str::trim_start){Bound::Included(parse(end)?)}",
-        "end->range_end_bound": "letend=parse(end)?;end.range_end_bound().ok_or_else(",
-        "impossible-excluded": "Bound::Excluded(end)if(end<=start)=>{returnErr(Error::ImpossibleRange(",
-        "impossible-included": "Bound::Included(end)if(end<start)=>{returnErr(Error::ImpossibleRange(",
-        "slots": "Ok(Self::Bounds{start:start,end:end})",
-        "split": "ifletSome((start,end))=s.split_once(\"..\")",
-        "exact": "parse(s).map(Self::Exact)",
-        "fallback": "ifmatches!(s,\"_\"|\"..\"){returnOk(Self::Fallback);}",
-        "alternatives": "s.split('|').map(|s|Self::new(s)).collect::<Result<_>>().map(Self::Multiple).map(Self::flatten)",
-    }
-    for k, frag in checks.items():
-        frag = flatp(frag)
-        if frag in body:
-            r.inst("Range::new#" + k, frag[:90])
+    # Range::new over one representative per production of the range grammar and per ordering of the two bounds, with
+    # the integer rule (`a..b` = a..=b-1) and the float rule (`a..b` excludes b) for the exclusive end (rules/absint.py)
+    from rules import absint
+    from rules.absint import AEval, C, CF, I, L
+    pf = absint.file_funcs(ast, PR, "Range")
+
+    def B_(start, end):
+        return CF("Bounds", start=(C("Some", I(start)) if start is not None else C("None")), end=end)
+
+    def ok(v):
+        return C("Ok", v)
+    INC, EXC, UNB = (lambda n: C("Included", I(n))), (lambda n: C("Excluded", I(n))), C("Unbounded")
+    for mode, endb, excl in (("int", (lambda rv, a: C("Some", C("Included", I(rv[1] - 1)))), (lambda n: INC(n - 1))), ("float", (lambda rv, a: C("Some", C("Excluded", rv))), EXC)):
+        cases = {
+            "5": ok(C("Exact", I(5))), "5..": ok(B_(5, UNB)), "5..7": ok(B_(5, excl(7))), "5..=7": ok(B_(5, INC(7))), "..7": ok(B_(None, excl(7))), "..=7": ok(B_(None, INC(7))),
+            "_": ok(C("Fallback")), "..": ok(C("Fallback")), " 5 ..= 7 ": ok(B_(5, INC(7))), "5 .. = 7": ok(B_(5, INC(7))),
+            "5|7..": ok(C("Multiple", L(C("Exact", I(5)), B_(7, UNB)))), " 5 | 7..": ok(C("Multiple", L(C("Exact", I(5)), B_(7, UNB)))), "5|_": ok(C("Fallback")),
+            "7..=7": ok(B_(7, INC(7))), "7..8": ok(B_(7, excl(8))),
+            "7..5": "ImpossibleRange", "7..7": "ImpossibleRange", "7..=6": "ImpossibleRange", "a": "RangeParse", "5..b": "RangeParse", "5|b": "RangeParse",
+        }
+        bad = []
+        for text, want in cases.items():
+            v = AEval(funcs=pf, builtins={"range_end_bound": endb}).run_fn(fn, [("str", text)])
+            if isinstance(want, str):
+                good = not isinstance(v, str) and v[0] == "ctor" and v[1] == "Err" and v[2] and v[2][0][0] == "ctor" and v[2][0][1] == want
+            else:
+                good = v == want
+            if not good:
+                bad.append((text, absint.fmt(v), want if isinstance(want, str) else absint.fmt(want)))
+        if not bad:
+            r.inst("Range::new (%s rule)" % mode, "%d range spellings parse to the documented range / error" % len(cases))
         else:
-            r.viol("R3:Range::new#" + k, "Range::new no longer contains the step `%s`" % frag[:90], file=fn.file, line=fn.line)
+            for text, got, want in bad[:5]:
+                r.viol("R3:Range::new#%s:%s" % (mode, text.strip()), "`%s` (%s rule for the exclusive end) parses to %s, documented: %s" % (text, mode, got, want), file=fn.file, line=fn.line)
     return r
 
 
@@ -359,18 +388,25 @@ def r4_validation(ctx, prog):
     if fn is None:
         r.missing("check_de_inner")
     else:
-        t = flat(show(fn.body))
-        need = {
-            "invalid_fallback": "ranges.iter().rev().skip(1).any(",
-            "fallback_count": "ranges.iter().filter(|(range,_)|matches!(range,Range::Fallback)).count()",
-            "should_have_fallback": "T::TYPE.should_have_fallback()",
-            "tuple": "(invalid_fallback,fallback_count,T::TYPE.should_have_fallback())",
-        }
-        for k, frag in need.items():
-            if frag not in t:
-                r.viol("R4:check_de_inner#" + k, "check_de_inner lost `%s`" % frag, file=fn.file, line=fn.line)
-            else:
-                r.inst("check_de_inner#" + k, frag[:80])
+        from rules import absint
+        from rules.absint import AEval, C, CF, I, L, A, T
+        pf = absint.file_funcs(ctx.ast, PR, "Ranges")
+        FB, EX = C("Fallback"), C("Exact", I(1))
+        MFB = C("Multiple", L(C("Exact", I(2)), C("Fallback")))
+        cases = {"[1, _]": ([EX, FB], False, 1), "[_, 1]": ([FB, EX], True, 1), "[1]": ([EX], False, 0), "[_, _]": ([FB, FB], True, 2), "[1, 2|_, 3]": ([EX, MFB, EX], True, 0),
+                 "[1, 2|_]": ([EX, MFB], False, 0), "[1, _, 1, _]": ([EX, FB, EX, FB], True, 2), "[_]": ([FB], False, 1)}
+        bad = []
+        for label, (rs, inv, cnt) in cases.items():
+            v = AEval(funcs=pf, builtins={"should_have_fallback": lambda rv, a: A("T::TYPE.should_have_fallback()")}).run_fn(fn, [L(*[T(x, A("v")) for x in rs])])
+            want = T(absint.B(inv), I(cnt), A("T::TYPE.should_have_fallback()"))
+            if v != want:
+                bad.append((label, absint.fmt(v), absint.fmt(want)))
+        if not bad:
+            r.inst("check_de_inner", "%d branch lists: (a fallback before the last branch?, number of fallback branches, type needs a fallback?)" % len(cases))
+            r.inst("check_de_inner#should_have_fallback", "T::TYPE.should_have_fallback()")
+        else:
+            for label, got, want in bad[:4]:
+                r.viol("R4:check_de_inner#" + label, "for branches %s the fallback analysis yields %s, expected %s" % (label, got, want), file=fn.file, line=fn.line)
     fn = ctx.ast.fn(PR, "should_have_fallback")
     if fn is not None:
         t = flatp(show(fn.body))
